@@ -182,3 +182,34 @@ Definition run_c19 (lm : Libm) (inp : list Z) : list Z :=
       end
   | _ => [98]
   end.
+
+(* c16s: a sequence of Curve::new calls threading ONE CurveBuffers value:
+   count, then (mode, points, expected length) per curve *)
+Fixpoint run_seq (lm : Libm) (n : nat) (bufs : CurveBuffers) (inp acc : list Z) : list Z :=
+  match n with
+  | O => acc
+  | S k =>
+      match inp with
+      | mode :: r =>
+          match take_list r with
+          | Some (pts, r1) =>
+              match take_len r1 with
+              | Some (e, r2) =>
+                  match curve_new_L0 lm bezier_fuel mode pts e bufs with
+                  | Done (c, bufs') => run_seq lm k bufs' r2 (acc ++ 0 :: dump_curve c)
+                  | Panic _ => acc ++ [1]
+                  | OutOfFuel => acc ++ [2]
+                  end
+              | None => acc ++ [98]
+              end
+          | None => acc ++ [98]
+          end
+      | [] => acc ++ [98]
+      end
+  end.
+
+Definition run_c16s (lm : Libm) (inp : list Z) : list Z :=
+  match inp with
+  | n :: r => run_seq lm (Z.to_nat n) bufs_default r []
+  | [] => [98]
+  end.
